@@ -62,6 +62,8 @@ class Engine:
         self.on_path = None
         self.merge_fns = set()             # crate fns explored on a symbolic argument with their paths merged
         self.unknowns = []
+        self.merge_off = False; self._merge_cache = {}
+        self.no_feasibility = False    # merged exploration of pure functions keeps every syntactic branch
         from . import summaries
         self.summaries = summaries
 
@@ -80,6 +82,7 @@ class Engine:
     def feasible(self, cond):
         if cond is True: return True
         if cond is False: return False
+        if self.no_feasibility: return True
         r = self.check(cond)
         if r == z3.unknown:
             raise Unsupported('solver unknown on a branch condition: ' + str(cond)[:160])
@@ -593,7 +596,7 @@ class Engine:
                 return self.apply_outcomes(st, fr, dest, retbb, outs, sname)
         target = self.prog.resolve(callee)
         if target is not None:
-            if target in self.merge_fns and any(self.has_sym(st, a) for a in argv):
+            if (target in self.merge_fns or self.is_merge_default(callee, target)) and any(self.has_sym(st, a) for a in argv):
                 outs = self.merged_call(st, target, argv)
                 return self.apply_outcomes(st, fr, dest, retbb, outs, sname)
             if self.prog.is_derived(target):
@@ -661,12 +664,24 @@ class Engine:
             if v and v[0] in ('tuple', 'vec', 'array'): return any(self.has_sym(st, x, depth) for x in v[1])
         return False
 
+    MERGE_DEFAULT = (r'^<number::Number as From<f64>>::from$', r'(^|::)superscript_digit_to_digit$', r'::Token::get_oper_prec$', r'::get_oper_prec$')
+
+    def is_merge_default(self, callee, target):
+        if self.merge_off: return False
+        c = mirparse_strip(callee)
+        r = self._merge_cache.get(c)
+        if r is None:
+            r = any(re.search(p, c) for p in self.MERGE_DEFAULT)
+            self._merge_cache[c] = r
+        return r
+
     def merged_call(self, st, target, argv):
         """run a pure function on symbolic arguments, collect (cond, result) over its paths and merge into one value"""
         results = []
         sub = Engine.__new__(Engine)
         sub.__dict__.update(self.__dict__)
         sub.on_path = lambda p: results.append((b_and(*p.pc[base:]), p))
+        sub.no_feasibility = True
         base = len(self.path_condition())
         s2 = st.fork(); s2.frames = []
         sub.call_fn(s2, target, argv)
@@ -675,7 +690,10 @@ class Engine:
         for cond, p in results:
             if p.kind != 'ret': raise Unsupported('merged function %s did not return on some path' % target)
             vals.append((cond, p.value))
-        return [(True, self.merge_values(vals))]
+        mv = self.merge_values(vals)
+        if mv[0] == 'sadt' and re.search(r'<impl at [^>]*number\.rs[^>]*>::from$', target) and len(argv) == 1 and is_fp(argv[0]):
+            mv = mv + ({'from': argv[0]},)      # remember that this Number is Number::from(argv[0]) (contract of C18)
+        return [(True, mv)]
 
     def merge_values(self, vals):
         first = vals[0][1]
